@@ -516,8 +516,8 @@ func explore(r *report.R, n, depth int, roots [][]Ev, onFrontier func([][]Ev)) s
 
 // depthFor gives the history depth per cluster size and tier.
 func depthFor(r *report.R, n int) int {
-	quick := map[int]int{1: 6, 2: 5, 3: 4, 4: 4, 5: 3}
-	thorough := map[int]int{1: 8, 2: 6, 3: 5, 4: 5, 5: 4}
+	quick := map[int]int{1: 7, 2: 6, 3: 4, 4: 3, 5: 3}
+	thorough := map[int]int{1: 9, 2: 7, 3: 5, 4: 5, 5: 4}
 
 	return r.Pick(quick[n], thorough[n])
 }
@@ -628,6 +628,13 @@ func main() {
 	perSize := map[string]any{}
 
 	for n := 1; n <= 5; n++ {
+		// debugging aid: VERIF_C29_SIZES=2,3 restricts the cluster sizes (the run then says so)
+		if only := os.Getenv("VERIF_C29_SIZES"); only != "" && !strings.Contains(","+only+",", fmt.Sprintf(",%d,", n)) {
+			r.Capped(fmt.Sprintf("cluster size %d skipped by VERIF_C29_SIZES", n))
+
+			continue
+		}
+
 		w = newWorld(n)
 		depth := depthFor(r, n)
 
@@ -646,13 +653,9 @@ func main() {
 		perSize[fmt.Sprintf("n%d", n)] = map[string]any{"depth": depth, "alphabet": len(alphabet(n, r.Thorough()))}
 
 		if depth > splitDepth && len(frontier) > 0 {
-			shards := 1
-			if n >= 3 {
-				shards = r.Pick(6, 12)
-			}
-
-			if n == 5 {
-				shards = r.Pick(8, 16)
+			shards := map[int]int{1: 1, 2: 4, 3: 6, 4: 4, 5: 6}[n]
+			if r.Thorough() {
+				shards = map[int]int{1: 1, 2: 8, 3: 12, 4: 16, 5: 12}[n]
 			}
 
 			parts := make([][][]Ev, shards)
